@@ -1,6 +1,7 @@
 package props
 
 import (
+	"bytes"
 	"context"
 	"errors"
 	"fmt"
@@ -53,6 +54,8 @@ type zoneGen struct {
 	huge bool // an address RRset of more than 32 KiB was generated
 	// upper: service targets are written with upper-case letters (T1.Example)
 	upper bool
+	// bigECH: ech values of about 700 bytes
+	bigECH bool
 }
 
 func (g *zoneGen) ip4() net.IP {
@@ -65,7 +68,13 @@ func (g *zoneGen) ip6() net.IP {
 }
 func (g *zoneGen) echBytes(owner string) []byte {
 	g.n++
-	return []byte(fmt.Sprintf("ECH:%s:v%d:%d", owner, g.z.Version, g.n))
+	b := []byte(fmt.Sprintf("ECH:%s:v%d:%d", owner, g.z.Version, g.n))
+	if g.bigECH {
+		// a list of several configs (or post-quantum keys) makes the answer larger than the
+		// 512 bytes of classic DNS: the marker repeated up to about 700 bytes
+		b = bytes.Repeat(append(b, '|'), 700/(len(b)+1)+1)
+	}
+	return b
 }
 
 func (g *zoneGen) addrs(name, label string, min int) {
